@@ -79,6 +79,20 @@ Theorem C09_refuse : forall f k m v, ftype_ok (f_ty f) = true ->
   out_of_domain (f_ty f) k v = true -> fst (set true f k m v) <> None.
 Proof. exact set_refuse_full. Qed.
 
+(* raw ctypes arrays (ctype * n) are sequences of their decoded elements ([iter_items] of [PCArr]): C09_refuse and
+   C09_readback_whole therefore cover them - same element type, other signedness, other width alike *)
+Example C09_ex_ctypes_array :
+  let f := mkField 0 (TArr (EInt 0 v_Int8) 4) in let m := [9; 9; 9; 9] in
+  (* (c_uint8*4)(1, 2, 200, 3) into an Int8 array: out of domain, refused, nothing written *)
+  out_of_domain (f_ty f) KAttr (PCArr 1 1 4 [1; 2; 200; 3]) = true /\
+  set true f KAttr m (PCArr 1 1 4 [1; 2; 200; 3]) = (Some EValueError, m) /\
+  (* (c_uint8*4)(1, 2, 100, 3): in range, accepted, read back exactly *)
+  set true f KAttr m (PCArr 1 1 4 [1; 2; 100; 3]) = (None, [1; 2; 100; 3]) /\
+  get f KAttr [1; 2; 100; 3] = inr (PList [PInt 1; PInt 2; PInt 100; PInt 3]) /\
+  (* (c_int16*2)(-1, 300) into the slice [2:4] *)
+  set true f (KSlice (Some 2) (Some 4) None) m (PCArr 0 2 2 [255; 255; 44; 1]) = (Some EValueError, m).
+Proof. repeat split; vm_compute; reflexivity. Qed.
+
 (* the two inputs that defeated the old max()/min() check *)
 Example C09_ex_nan_neighbour :
   let f := mkField 0 (TArr (EFloat 8 v_Float) 2) in let m := [0;0;0;0;0;0;0;0] in
